@@ -33,8 +33,8 @@ func VerifC20Config() {
 	wg.Wait()
 	final := currentConfig()
 	vAssert(e1 == nil && e2 == nil, "C20.config.err: setting an option failed")
-	vAssert(final.NodeCount == 7 && final.Focus == "foo", "C20.config.lost: a concurrent option assignment was lost")
-	vAssert((seen.NodeCount == 7 || seen.NodeCount == -1) && (seen.Focus == "foo" || seen.Focus == ""), "C20.config.torn: a concurrent read saw a value that was never set")
+	vAssert(final.NodeCount == 7 && final.Focus == "foo", "sched:C20.config.lost: a concurrent option assignment was lost")
+	vAssert((seen.NodeCount == 7 || seen.NodeCount == -1) && (seen.Focus == "foo" || seen.Focus == ""), "sched:C20.config.torn: a concurrent read saw a value that was never set")
 	setCurrentConfig(defaultConfig())
 }
 
